@@ -119,6 +119,7 @@ class Ctx:
         self.branch_timeout = 5000
         self.hint_timeout = 20000
         self.arctan_hints = True
+        self.exact_const_sqrt = False
         self.queries = 0
         self.solver_s = 0.0
         self.reset_path([])
@@ -611,7 +612,19 @@ class S:
             r = math.isqrt(c.numerator), math.isqrt(c.denominator)
             if r[0] ** 2 == c.numerator and r[1] ** 2 == c.denominator:
                 return S(Q(Fraction(r[0], r[1])))
-            return S(Q(const(math.sqrt(float(c)))))
+            if not CTX.exact_const_sqrt:
+                return S(Q(const(math.sqrt(float(c)))))
+            # irrational square root of a constant: an exact algebraic atom (a float approximation would be
+            # visible to the exact-real encoding as r^2 != c)
+            key = ("sqrtc", c)
+            ent = CTX.atoms.get(key)
+            if ent is None:
+                rr = CTX.fresh("sqrtc")
+                CTX.axioms += [rr > 0, rr * rr == term(c)]
+                CTX.atom_list.append(("sqrt", rr, s.v))
+                ent = rr
+                CTX.atoms[key] = ent
+            return S(Q(ent))
         key = ("sqrt", s.v.n if _is_c(s.v.n) else s.v.n.get_id(), s.v.e)
         ent = CTX.atoms.get(key)
         if ent is None:
